@@ -761,6 +761,19 @@ func (x *Exec) nowValue() Value {
 	} else {
 		sec = x.Fresh("now.sec", 64)
 		ms = x.Fresh("now.ms", 64)
+		// extend the current model for the two fresh symbols so that the assumptions below hold
+		// without a solver call (any value of an unconstrained symbol extends a model)
+		hs, hm := uint64(base), uint64(0)
+		if x.lastNow[0] != nil {
+			if v, ok := x.eval(x.lastNow[0]); ok {
+				hs = v
+			}
+			if v, ok := x.eval(x.lastNow[1]); ok {
+				hm = v
+			}
+		}
+		x.hint(sec, hs)
+		x.hint(ms, hm)
 		x.Assume(ts.And(ts.Cmp(OpULe, ts.BV(base, 64), sec), ts.Cmp(OpULt, sec, ts.BV(base+1<<20, 64))), "clock range (2^20 s window)")
 		x.Assume(ts.Cmp(OpULt, ms, ts.BV(1000, 64)), "clock ms < 1000")
 		if x.lastNow[0] != nil {
